@@ -4,14 +4,14 @@ import Bgpfu.Drive.Proto
 namespace Writers
 open Proto Framing
 
-/-- `pinned` | `fixed` | `c<payloadEsc><wsRefs><guard>` with 0/1 digits -/
+/-- `pinned` | `fixed` | `c<payloadEsc><wsRefs><guard><charGuard>` with 0/1 digits -/
 def parseCfg (s : String) : Option Cfg :=
   if s == "pinned" then some .pinned
   else if s == "fixed" then some .fixed
   else match s.toList with
-    | ['c', p, w, g] =>
+    | ['c', p, w, g, x] =>
       let bit : Char → Option Bool := fun ch => if ch == '0' then some false else if ch == '1' then some true else none
-      do pure { payloadEsc := ← bit p, wsRefs := ← bit w, guard := ← bit g }
+      do pure { payloadEsc := ← bit p, wsRefs := ← bit w, guard := ← bit g, charGuard := ← bit x }
     | _ => none
 
 def parseOpt (s : String) : Option (Option (List Nat)) :=
